@@ -220,6 +220,12 @@ class PathEnum:
         if isinstance(e, ast.UnaryOp) and isinstance(e.op, ast.Not):
             v = self.const_of(e.operand, p, fr)
             return _UNKNOWN if v is _UNKNOWN else (not v)
+        if isinstance(e, ast.Call) and isinstance(e.func, ast.Name) and e.func.id == 'hasattr' and len(e.args) == 2 and not e.keywords \
+                and isinstance(e.args[1], ast.Constant) and isinstance(e.args[1].value, str):
+            # hasattr(<local known to hold None / a number / a string>, 'name') is decided by the type of the constant
+            v = self.const_of(e.args[0], p, fr) if isinstance(e.args[0], (ast.Name, ast.Constant)) else _UNKNOWN
+            if v is None or isinstance(v, (bool, int, float, str, bytes)):
+                return hasattr(v, e.args[1].value)
         if getattr(self, 'default_kwargs', False) and isinstance(e, ast.Call) and isinstance(e.func, ast.Attribute) and e.func.attr == 'get' \
                 and isinstance(e.func.value, ast.Name) and len(e.args) == 2 and all(isinstance(a, ast.Constant) for a in e.args):
             # default-call mode: an option looked up in **kwargs takes its default
